@@ -34,7 +34,8 @@ CHECKS = {
             "tracker's enter/exit functions wrapped: each call is one observed transition of the tracker state machine (states/transitions reported). After each top-level schema "
             "depth==0, stack empty, nothing IN_PROGRESS; at the end every schema terminal and every declared name present; RecursionError/time-out are violations.",
             "Wrapping relies on module attributes unified_enter_schema/unified_exit_schema/_parse_schema being looked up at call time (as they are today). "
-            "The TLA+ tracker model + per-edge conformance replay planned in DESIGN.md is an additional layer (see evidence key tlc).",
+            "On top of the direct exploration a TLA+ model of the tracker (mc/tla/CycleTracker.tla) is checked by TLC under 3-4 configurations (depth limits 1/2/3, two name sets) and EVERY distinct edge of each "
+            "reachable state graph is replayed on the real unified_enter_schema/unified_exit_schema; every event trace of the real parser must be a path of the model's environment (evidence key coverage.tlc).",
             "4 C08"),
     "C19": ("exploration", "exhaustive orbit enumeration (metamorphic): every rendering of every representative document, every declaration order / property order of every small schema graph, every path permutation; manifests compared across the whole orbit",
             "For every document of the bounded space the complete orbit under re-rendering (JSON / YAML block / YAML flow / YAML with unquoted numeric status keys) and "
